@@ -54,6 +54,12 @@ theorem checkTta_err (f : Found) (e : Exc) (h : checkTta f = .error e) : e = .pr
   repeat' split at h
   all_goals first | (cases h; rfl) | cases h
 
+@[simp] theorem checkTta_stamp (f : Found) (p : Bool) (t : Nat) :
+    checkTta { sens := f.sens, rid := f.rid, p2p := p, atrLen := f.atrLen, var := f.var, tech := t } = checkTta f := rfl
+
+@[simp] theorem xchgAnswer_snd (a : Ans) (s : St) : (xchgAnswer a s).2 = s := by
+  cases a <;> rfl
+
 theorem drvSense_eq (site : Site) (s : St) : ∃ a, s.ask site = (a, { s with env := s.env.tail, n := s.n + 1, log := s.log ++ [.call site a] }) := ask_spec s site
 
 theorem senseOne_spec (t : TgtSpec) (s : St) (ht : t ≠ .notTarget) : OneSpec t s (senseOne t s).1 (senseOne t s).2 := by
@@ -366,12 +372,12 @@ theorem exchange_spec (s : St) :
   | none => simp [ht]
   | remote id =>
     obtain ⟨a, ha⟩ := ask_spec s (.cmdRsp id)
-    simp only [ha]
-    cases a <;> simp [ht] <;> exact ⟨_, rfl⟩
+    simp only [ha, xchgAnswer_snd]
+    exact ⟨ht, a, rfl⟩
   | loc id =>
     obtain ⟨a, ha⟩ := ask_spec s (.rspCmd id)
-    simp only [ha]
-    cases a <;> simp [ht] <;> exact ⟨_, rfl⟩
+    simp only [ha, xchgAnswer_snd]
+    exact ⟨ht, a, rfl⟩
 /-! ## which exceptions leave the pieces -/
 
 theorem simpleCall_err (site : Site) (s : St) (e : Exc) (h : (simpleCall site s).1 = .error e) :
@@ -390,11 +396,11 @@ theorem exchange_err (s : St) (e : Exc) (h : (exchange s).1 = .error e) :
   | remote id =>
     obtain ⟨a, ha⟩ := ask_spec s (.cmdRsp id)
     simp only [ht, ha] at h
-    cases a <;> simp at h <;> subst h <;> simp [isCommErr]
+    cases a <;> simp [xchgAnswer] at h <;> subst h <;> simp [isCommErr]
   | loc id =>
     obtain ⟨a, ha⟩ := ask_spec s (.rspCmd id)
     simp only [ht, ha] at h
-    cases a <;> simp at h <;> subst h <;> simp [isCommErr]
+    cases a <;> simp [xchgAnswer] at h <;> subst h <;> simp [isCommErr]
 
 /-- `sense()` raises only device errors, the error of a single target, or the ValueError for an
 argument that is not a RemoteTarget -/
